@@ -209,6 +209,29 @@ CHECKS: dict[str, tuple[str, str, str, str]] = {
         "Trusted: ast, mypy's resolution and MROs, table T2. Known findings are keyed by exception and origin construct.",
         "DESIGN.md §3 C16",
     ),
+    "C10": (
+        "order taint on the annotate path (mypy types) + style-table ambiguity on the folded tables + writer/finder agreement",
+        "Decides that on everything reachable from annotate no value whose order comes from a set or the file system"
+        " reaches the rendered header, a regular expression, a first-element choice or Counter.most_common, and that"
+        " the three template arguments are sorted (so identical arguments give identical headers under any hash seed);"
+        " that for none of the 29 folded comment styles the multi-line opener starts with the single-line marker while"
+        " single-line detection runs first (the tool must find the header it wrote); that the comment writer and the"
+        " block finder agree; and the no-separator cell of place_header. Byte identity for all bodies is not decided.",
+        "Trusted: ast, mypy types, sa/taint.py, sa/fold.py, sa/tab.py, canonisers of table T3.",
+        "DESIGN.md §3 C10",
+    ),
+    "C14": (
+        "order-taint analysis (sources by mypy type, propagation with function summaries, sinks) + constant-folder order hazards",
+        "Decides that on every function reachable from lint, lint-file, spdx and the pool worker no value whose order"
+        " comes from a set, os.walk/glob or an unordered pool reaches a content-affecting sink (regex construction,"
+        " first element, first-match loop, most_common, rendered text) without sorted / sort / simplify; that no"
+        " module-level constant on the lint path consumes a set in iteration order; that the pool uses the"
+        " order-preserving map over the same file list and workers re-create the same state; that nested REUSE.toml"
+        " files are ordered by depth. Listing order of output is deliberately not a sink. Independence of cwd and of"
+        " the spelling of --root depends on run-time path arithmetic and is not decided.",
+        "Trusted: ast, mypy types/callees, table T3 (sorted, list.sort, boolean.py simplify sorts operands).",
+        "DESIGN.md §3 C14",
+    ),
 }
 
 PENDING_REASON = "check not implemented yet (build in progress; see DESIGN.md §7)"
